@@ -232,14 +232,27 @@ def audit(prop, force=False, lock=True):
 
 
 def leanchecker(prop, timeout=1500):
+    """returns (status, tail): status True = re-check passed, False = leanchecker REPORTED a problem,
+    None = leanchecker could not complete (killed, out of memory, timed out: no verdict)"""
     mods = sorted({m for pm in prop_modules(prop) for m in import_closure(pm)})
-    lock = _lock()
-    try:
-        p = subprocess.run(["lake", "env", "leanchecker"] + mods, cwd=LEAN, capture_output=True, text=True,
-                           timeout=timeout)
-    finally:
-        lock.close()
-    return p.returncode == 0, (p.stdout + p.stderr)[-2000:]
+    last = ""
+    for _attempt in range(2):
+        lock = _lock()
+        try:
+            p = subprocess.run(["lake", "env", "leanchecker"] + mods, cwd=LEAN, capture_output=True, text=True,
+                               timeout=timeout)
+        except subprocess.TimeoutExpired:
+            last = "timed out"
+            continue
+        finally:
+            lock.close()
+        out = (p.stdout + p.stderr)
+        if p.returncode == 0:
+            return True, out[-2000:]
+        if p.returncode > 0 and out.strip():
+            return False, out[-2000:]
+        last = f"exit status {p.returncode} without a diagnostic (killed / out of memory?)"
+    return None, last
 
 
 def write_driver_all():
